@@ -1692,6 +1692,45 @@ def desugar(rec, prog, stats):
             stats.setdefault(rec["path"], []).append("desugar:" + c.rsplit("::", 1)[1])
             changed = True
             continue
+        mi_ = re.fullmatch(r"core::cmp::impls::<impl core::cmp::PartialOrd for ([ui])(8|16|32|64|size)>::partial_cmp", c or "")
+        if mi_ and len(t["args"]) == 2 and not t["dest"]["proj"] and all(a["k"] in ("move", "copy") and not a["place"]["proj"] for a in t["args"]):
+            # a.partial_cmp(&b) on integers  ->  if a < b { Some(Less) } else if a == b { Some(Equal) } else { Some(Greater) }     (never None)
+            # (`<` is tested first: everything that is not Less is dominated by its false edge, i.e. by a >= b)
+            ity_ = {"k": "uint" if mi_.group(1) == "u" else "int", "bits": 64 if mi_.group(2) == "size" else int(mi_.group(2)), "name": mi_.group(1) + mi_.group(2)}
+            bty = {"k": "bool"}
+            dty = rec["locals"][t["dest"]["local"]]
+            line = t.get("line")
+            n = len(rec["locals"])
+            rec["locals"].extend([ity_, ity_, bty, bty, {"k": "adt", "path": "core::cmp::Ordering", "args": [], "s": "core::cmp::Ordering"}])
+            a_, b_, l_, e_, o_ = range(n, n + 5)
+            nb = len(rec["blocks"])
+            BL, B1, BE, BG = nb, nb + 1, nb + 2, nb + 3
+
+            def some_i(vi, vn):
+                return [{"k": "assign", "place": {"local": o_, "proj": []},
+                         "rv": {"k": "aggregate", "agg": "adt", "path": "core::cmp::Ordering", "variant": vi, "vname": vn, "args": [], "is_enum": True, "ops": []}, "line": line},
+                        {"k": "assign", "place": copy.deepcopy(t["dest"]),
+                         "rv": {"k": "aggregate", "agg": "adt", "path": "core::option::Option", "variant": 1, "vname": "Some", "args": dty.get("args", []), "is_enum": True,
+                                "ops": [{"k": "move", "place": {"local": o_, "proj": []}}]}, "line": line}]
+
+            def test_i(dst, op):
+                return {"k": "assign", "place": {"local": dst, "proj": []},
+                        "rv": {"k": "binop", "op": op, "a": {"k": "copy", "place": {"local": a_, "proj": []}}, "b": {"k": "copy", "place": {"local": b_, "proj": []}}}, "line": line}
+
+            def sw_i(dst, yes, no):
+                return {"k": "switch", "discr": {"k": "move", "place": {"local": dst, "proj": []}}, "dty": bty, "arms": [[0, no]], "otherwise": yes, "line": line}
+            blk["stmts"] = list(blk["stmts"]) + [
+                {"k": "assign", "place": {"local": a_, "proj": []}, "rv": {"k": "use", "op": {"k": "copy", "place": {"local": t["args"][0]["place"]["local"], "proj": [{"k": "deref"}]}}}, "line": line},
+                {"k": "assign", "place": {"local": b_, "proj": []}, "rv": {"k": "use", "op": {"k": "copy", "place": {"local": t["args"][1]["place"]["local"], "proj": [{"k": "deref"}]}}}, "line": line},
+                test_i(l_, "Lt")]
+            blk["term"] = sw_i(l_, BL, B1)
+            rec["blocks"].append({"stmts": some_i(0, "Less"), "term": {"k": "goto", "target": t["target"]}})
+            rec["blocks"].append({"stmts": [test_i(e_, "Eq")], "term": sw_i(e_, BE, BG)})
+            rec["blocks"].append({"stmts": some_i(1, "Equal"), "term": {"k": "goto", "target": t["target"]}})
+            rec["blocks"].append({"stmts": some_i(2, "Greater"), "term": {"k": "goto", "target": t["target"]}})
+            stats.setdefault(rec["path"], []).append("desugar:partial_cmp_int")
+            changed = True
+            continue
         if re.fullmatch(r"core::cmp::impls::<impl core::cmp::PartialOrd for f(32|64)>::partial_cmp", c or "") and len(t["args"]) == 2 and not t["dest"]["proj"] \
                 and all(a["k"] in ("move", "copy") and not a["place"]["proj"] for a in t["args"]):
             # a.partial_cmp(&b) on floats  ->  if a > b { Some(Greater) } else if a < b { Some(Less) } else if a == b { Some(Equal) } else { None }
